@@ -221,6 +221,7 @@ func c19Units(thorough bool) []*explore.Unit {
 		}
 	}
 	units = append(units, c19DialUnits()...)
+	units = append(units, c19WUnits(thorough)...)
 	for _, env := range []string{"split-away", "merge-away", "dropped"} {
 		for at := 2; at <= 8; at += 2 {
 			add(c19Params{layout: "spread", keys: []string{"a"}, warm: []string{"a", "x"}, closeAt: at, env: env}, 1)
@@ -450,7 +451,7 @@ func c20Check(p c20Params, out *c20Obs) func(res *vrt.Result) *explore.Finding {
 }
 
 func c20Units(thorough bool) []*explore.Unit {
-	var units []*explore.Unit
+	units := c20WUnits(thorough)
 	for _, n := range []int{2, 3, 4} {
 		for _, callers := range []int{n, n + 1} {
 			for _, ph := range []string{"", "later-discovery", "connfail", "split-only-region", "merge-only-regions"} {
